@@ -81,6 +81,13 @@ type FuncSpec struct {
 	Reveal   []string // opaque macros unfolded while verifying this function
 	Havocs   []Clause // arguments whose reachable memory is arbitrary after the call
 	Inlines  []string // callees (short names) whose bodies are inlined here although they have contracts
+	Emits    []EmitSpec // ghost records this function appends (for callers using the contract)
+}
+
+// EmitSpec: the function appends N ghost records named Name.
+type EmitSpec struct {
+	Name string
+	N    int
 }
 
 // Macro is a spec-level definition.
@@ -114,10 +121,13 @@ type SpecDB struct {
 	ErrKinds []string
 	// FrameAll: functions without a contract get `assigns \\nothing`.
 	FrameAll bool
+	// PkgInvariants: per package path, global invariants assumed at the entry
+	// of every function of that package (established by package initialisation).
+	PkgInvariants map[string][]Clause
 }
 
 func NewSpecDB() *SpecDB {
-	return &SpecDB{Funcs: map[string]*FuncSpec{}, Macros: map[string]*Macro{}, UFs: map[string]*UFDecl{}, Consts: map[string]uint64{}, InlineExt: map[string]bool{}}
+	return &SpecDB{Funcs: map[string]*FuncSpec{}, Macros: map[string]*Macro{}, UFs: map[string]*UFDecl{}, Consts: map[string]uint64{}, InlineExt: map[string]bool{}, PkgInvariants: map[string][]Clause{}}
 }
 
 // LoadFile parses a contract file; pkg is the package path for keys.
@@ -214,6 +224,15 @@ func (db *SpecDB) LoadFile(path, pkg string) error {
 				return fail("%v", err)
 			}
 			db.UFs[u.Name] = u
+		case "invariant":
+			x, err := ParseExpr(rest)
+			if err != nil {
+				return fail("invariant: %v", err)
+			}
+			db.PkgInvariants[pkg] = append(db.PkgInvariants[pkg], Clause{Expr: x, Text: rest, Line: start})
+		case "errkind":
+			k := strings.Trim(strings.TrimSpace(rest), "\"")
+			db.ErrKinds = append(db.ErrKinds, k)
 		case "const":
 			// const NAME = value
 			parts := strings.SplitN(rest, "=", 2)
@@ -446,6 +465,16 @@ func parseClause(fs *FuncSpec, word, rest string, line int) error {
 		fs.Ghost = append(fs.Ghost, splitNames(rest)...)
 	case "reveal":
 		fs.Reveal = append(fs.Reveal, splitNames(rest)...)
+	case "emits":
+		parts := strings.Fields(rest)
+		if len(parts) != 2 {
+			return fmt.Errorf("emits NAME COUNT")
+		}
+		n, err := strconv.Atoi(parts[1])
+		if err != nil {
+			return fmt.Errorf("emits count: %v", err)
+		}
+		fs.Emits = append(fs.Emits, EmitSpec{Name: parts[0], N: n})
 	case "inlines":
 		fs.Inlines = append(fs.Inlines, splitNames(rest)...)
 	case "havocs":
